@@ -13,7 +13,7 @@ structure Settled (c : Cfg) (ch : PChain) (s : Store) (h : Nat) : Prop where
   height : s.height = h
   recH : recHeight c s = h
 
-theorem Safe.settled (g : GoodChain c ch top) (hs : Safe c ch h0 evs n) : Settled c ch n.store n.store.height :=
+theorem SafeJ.settled {jk : Bool} (g : GoodChain c ch top) (hs : SafeJ jk c ch h0 evs n) : Settled c ch n.store n.store.height :=
   ⟨(hs.diskOK g).1, rfl, (hs.diskOK g).2⟩
 
 /-- a block saved **above** the recorded height (the block of the next height, saved before the state that says
@@ -111,7 +111,7 @@ theorem crash_ok (g : GoodChain c ch top) {h h' : Nat} {ws : List SW} (a : Appli
         simp [Store.applyPrefix, Store.applyAll]
       rw [e]; exact ⟨i1, by omega, i3⟩
 
-theorem crash_image_ok (g : GoodChain c ch top) (hs : Safe c ch h0 evs n) (e : Ev) (k : Nat) :
+theorem crash_image_ok {jk : Bool} (g : GoodChain c ch top) (hs : SafeJ jk c ch h0 evs n) (e : Ev) (k : Nat) :
     DiskOK c ch (n.store.applyPrefix k (deliver ch n e).2) ∧
     n.store.height ≤ recHeight c (n.store.applyPrefix k (deliver ch n e).2) ∧
     recHeight c (n.store.applyPrefix k (deliver ch n e).2) ≤ (deliver ch n e).1.store.height :=
@@ -124,7 +124,7 @@ theorem diskOK_start (g : GoodChain c ch top) {d : Store} (hd : DiskOK c ch d) :
       n.lastState.lastHeight = n.store.height ∧ Inv c ch n.store.height [] n := by
   obtain ⟨n, ws, h1, h2⟩ := start_spec g hd {}
   have hs : Safe c ch n.store.height [] n :=
-    started_safe hd h2 (cachesOK_empty ch) (by rw [h2.height]; exact Nat.le_refl _) (fun k a b => by rw [h2.height] at a; omega)
+    started_safe hd h2 (cachesOK_empty false ch) (by rw [h2.height]; exact Nat.le_refl _) (fun k a b => by rw [h2.height] at a; omega)
   obtain ⟨a, b⟩ := live_of_empty ch (n := n) h2.hc h2.dc h2.sH h2.sD
   exact ⟨n, ws, h1, h2.height, (hs.hs g).symm, hs, a, b⟩
 
@@ -223,63 +223,193 @@ theorem start_crash_ok (g : GoodChain c ch top) {d : Store} (hd : DiskOK c ch d)
     · rw [mem_wmW hw]; exact ⟨diskOK_setWm hd' _ (Or.inr rfl) _, hs'⟩
 
 
+/-- the store `start` hands to the node is the image after exactly the writes it reports -/
+theorem start_store (g : GoodChain c ch top) {d : Store} (hd : DiskOK c ch d) {caches : FNode} {ws : List SW}
+    (h : start c d caches = some (n, ws)) : n.store = d.applyAll ws := by
+  cases hst : d.state with
+  | none =>
+    rw [start_none c d caches hst] at h
+    unfold finishStart at h
+    split at h
+    · simp only [Option.some.injEq, Prod.mk.injEq] at h
+      obtain ⟨rfl, rfl⟩ := h
+      simp only [Store.applyAll, List.foldl_append]; rfl
+    · cases h
+  | some s =>
+    have hle : c.initialHeight ≤ s.lastHeight := by
+      have := (hd.state s hst).2
+      simpa [recHeight, hst] using this
+    rw [start_some c d caches hst hle] at h
+    unfold finishStart at h
+    split at h
+    · simp only [Option.some.injEq, Prod.mk.injEq] at h
+      obtain ⟨rfl, rfl⟩ := h
+      simp only [Store.applyAll, List.foldl_append]; rfl
+    · cases h
+
+/-! ## restart on an image with the cache files of an earlier generation -/
+
+/-- the liveness invariant survives a growth of the chain height with the caches unchanged: what an earlier
+generation of the caches says about heights above its own height is still true above a larger height -/
+theorem Live.raise {n' : FNode} (hl : Live ch evs n) (h1 : n.store.height ≤ n'.store.height)
+    (h2 : n'.hdrCache = n.hdrCache) (h3 : n'.datCache = n.datCache) (h4 : n'.seenH = n.seenH)
+    (h5 : n'.seenD = n.seenD) : Live ch evs n' := by
+  have kH : keysH n' = keysH n := by unfold keysH; rw [h2]
+  have kD : keysD n' = keysD n := by unfold keysD; rw [h3]
+  refine ⟨?_, ?_, ?_, ?_, ?_, ?_⟩
+  · intro k b hb hlt he; rw [kH]; exact hl.hdrDel k b hb (by omega) he
+  · intro k b hb hlt hne he; rw [kD]; exact hl.datDel k b hb (by omega) hne he
+  · intro k b hb hlt hem he; rw [kD]; exact hl.datEmp k b hb (by omega) hem he
+  · intro x hx
+    rw [h4] at hx
+    obtain ⟨k, b, hb, e, h⟩ := hl.seenHs x hx
+    exact ⟨k, b, hb, e, by rw [kH]; exact h.imp (fun h => by omega) id⟩
+  · intro x hx
+    rw [h5] at hx
+    obtain ⟨k, b, hb, hne, e, h⟩ := hl.seenDs x hx
+    exact ⟨k, b, hb, hne, e, by rw [kD]; exact h.imp (fun h => by omega) id⟩
+  · rw [kH, kD]; exact hl.hdrEmp
+
+variable {jk : Bool}
+
+/-- **Restart on a consistent image with the caches of any sound generation** (`NewManager`, then the start of
+`SyncLoop`): succeeds; the node is at least at the recorded height, its state is the state after exactly its
+height, the safety invariant holds (relative to the events that generation had seen), nothing is applicable. -/
+theorem diskOK_boot (g : GoodChain c ch top) {d : Store} (hd : DiskOK c ch d) {G : FNode}
+    (hc : CachesOK jk ch evs G) :
+    ∃ n ws, boot c d G = some (n, ws) ∧ recHeight c d ≤ n.store.height ∧
+      n.lastState.lastHeight = n.store.height ∧ SafeJ jk c ch (recHeight c d) evs n ∧ Quiet n ∧
+      ∀ j, DiskOK c ch (d.applyPrefix j ws) := by
+  obtain ⟨n0, ws0, h1, hpre⟩ := start_crash_ok g hd G
+  obtain ⟨n0', ws0', h1', h2⟩ := start_spec g hd G
+  rw [h1] at h1'; cases h1'
+  have hs0 : SafeJ jk c ch (recHeight c d) evs n0 :=
+    started_safe hd h2 hc (Nat.le_refl _) (fun k a b => by omega)
+  obtain ⟨a1, a2, a3⟩ := loopStart_safe g hs0
+  refine ⟨_, _, boot_of_start h1, ?_, (a1.hs g).symm, a1, a3, ?_⟩
+  · have := a2.le; rw [h2.height] at this; exact this
+  · intro j
+    by_cases hj : j ≤ ws0.length
+    · have e : d.applyPrefix j (ws0 ++ (loopStart n0).2) = d.applyPrefix j ws0 := by
+        simp [Store.applyPrefix, List.take_append_of_le_length hj]
+      rw [e]; exact hpre j
+    · have e : d.applyPrefix j (ws0 ++ (loopStart n0).2) = (d.applyAll ws0).applyPrefix (j - ws0.length) (loopStart n0).2 := by
+        simp only [Store.applyPrefix, Store.applyAll]
+        rw [List.take_append, List.foldl_append, List.take_of_length_le (by omega)]
+      rw [e]
+      have hst : n0.store = d.applyAll ws0 := start_store g hd h1
+      rw [← hst]
+      exact (crash_ok g a2 _ (hs0.settled g) _).1
+
+/-- with the caches lost the start of the loop has nothing to do: the node is exactly at the recorded height -/
+theorem diskOK_boot_empty (g : GoodChain c ch top) {d : Store} (hd : DiskOK c ch d) :
+    ∃ n ws, boot c d = some (n, ws) ∧ start c d = some (n, ws) ∧ n.store.height = recHeight c d ∧
+      n.lastState.lastHeight = n.store.height ∧ Inv c ch n.store.height [] n := by
+  obtain ⟨n, ws, h1, h2, h3, h4⟩ := diskOK_start g hd
+  obtain ⟨_, _, h1', hst⟩ := start_spec g hd {}
+  rw [h1] at h1'; cases h1'
+  have hb := boot_of_start h1
+  rw [loopStart_noHeaders hst.hc, List.append_nil] at hb
+  exact ⟨n, ws, hb, h1, h2, h3, h4⟩
+
+/-- … and with the caches of a generation that satisfied C02's invariant at a height not above the recorded one
+(the cache files of any earlier clean stop of the same node), C02's invariant holds again: the stale seen-sets and
+items are consistent with the larger height, and what they already allow has been applied -/
+theorem diskOK_boot_inv (g : GoodChain c ch top) {d : Store} (hd : DiskOK c ch d) {G : FNode} {hG : Nat}
+    (hi : Inv c ch hG evs G) (hle : G.store.height ≤ recHeight c d) :
+    ∃ n ws, boot c d G = some (n, ws) ∧ recHeight c d ≤ n.store.height ∧
+      n.lastState.lastHeight = n.store.height ∧ Inv c ch (recHeight c d) evs n ∧
+      ∀ j, DiskOK c ch (d.applyPrefix j ws) := by
+  obtain ⟨n0, ws0, h1, h2⟩ := start_spec g hd G
+  have hs0 : Safe c ch (recHeight c d) evs n0 :=
+    started_safe hd h2 hi.safe.caches (Nat.le_refl _) (fun k a b => by omega)
+  have hl0 : Live ch evs n0 := hi.live.raise (by rw [h2.height]; exact hle) h2.hc h2.dc h2.sH h2.sD
+  obtain ⟨n, ws, b1, b2, b3, b4, b5, b6⟩ := diskOK_boot g hd hi.safe.caches
+  have e := boot_of_start h1
+  rw [b1] at e
+  simp only [Option.some.injEq, Prod.mk.injEq] at e
+  refine ⟨n, ws, b1, b2, b3, ⟨b4, ?_, b5⟩, b6⟩
+  rw [e.1]
+  exact (trySync_live g _ n0 hs0 hl0).1
+
 /-! ## any number of crashes and restarts -/
 
 /-- nodes reachable from a fresh start by genuine events, clean restarts, crashes at **any** write boundary of
-any step, each followed by a restart on the image with empty caches, and (`image`) a start on any consistent
-image — in particular on the image left by a crash *during* an earlier start (`start_crash_ok`) -/
+any step, each followed by a restart (`boot`) on the image — with the caches lost (`crash`) or with the cache files
+of an earlier generation (`crashStale`: the caches of any reachable node whose height is not above the recorded
+height; in particular of any earlier clean stop of the same node) — and (`image`) a start on any consistent image,
+in particular on the image left by a crash *during* an earlier start (`diskOK_boot`) -/
 inductive Reach (c : Cfg) (ch : PChain) : FNode → Prop
   | fresh : Reach c ch (fresh c)
   | ev {n : FNode} (e : Ev) : Reach c ch n → Reach c ch (deliver ch n e).1
-  | restart {n : FNode} : Reach c ch n → Reach c ch (restart c n)
+  | restart {n : FNode} : Reach c ch n → Reach c ch (reboot c n)
   | crash {n n' : FNode} {ws : List SW} (e : Ev) (k : Nat) : Reach c ch n →
-      start c (n.store.applyPrefix k (deliver ch n e).2) = some (n', ws) → Reach c ch n'
-  | image {n : FNode} {d : Store} {ws : List SW} : DiskOK c ch d → start c d = some (n, ws) → Reach c ch n
+      boot c (n.store.applyPrefix k (deliver ch n e).2) = some (n', ws) → Reach c ch n'
+  | crashStale {n n₀ n' : FNode} {ws : List SW} (e : Ev) (k : Nat) : Reach c ch n → Reach c ch n₀ →
+      n₀.store.height ≤ recHeight c (n.store.applyPrefix k (deliver ch n e).2) →
+      boot c (n.store.applyPrefix k (deliver ch n e).2) n₀ = some (n', ws) → Reach c ch n'
+  | image {n : FNode} {d : Store} {ws : List SW} : DiskOK c ch d → boot c d = some (n, ws) → Reach c ch n
 
 theorem Inv.rebase (hi : Inv c ch h0 evs n) : Inv c ch n.store.height evs n :=
   ⟨{ hi.safe with ge := Nat.le_refl _, sound := fun k a b => by omega }, hi.live, hi.quiet⟩
 
-theorem Safe.rebase (hs : Safe c ch h0 evs n) : Safe c ch n.store.height evs n :=
+theorem SafeJ.rebase (hs : SafeJ jk c ch h0 evs n) : SafeJ jk c ch n.store.height evs n :=
   { hs with ge := Nat.le_refl _, sound := fun k a b => by omega }
 
-/-- a crash never blocks the restart: `start` succeeds on the image of every crash point -/
-theorem crash_restarts (g : GoodChain c ch top) (hs : Safe c ch h0 evs n) (e : Ev) (k : Nat) :
-    ∃ n' ws, start c (n.store.applyPrefix k (deliver ch n e).2) = some (n', ws) ∧
+/-- a crash never blocks the restart: `boot` (with the caches lost) succeeds on the image of every crash point -/
+theorem crash_restarts (g : GoodChain c ch top) (hs : SafeJ jk c ch h0 evs n) (e : Ev) (k : Nat) :
+    ∃ n' ws, boot c (n.store.applyPrefix k (deliver ch n e).2) = some (n', ws) ∧
       DiskOK c ch (n.store.applyPrefix k (deliver ch n e).2) ∧
       n'.store.height = recHeight c (n.store.applyPrefix k (deliver ch n e).2) ∧
       n'.lastState.lastHeight = n'.store.height ∧ Inv c ch n'.store.height [] n' := by
   have h := (crash_image_ok g hs e k).1
-  obtain ⟨n', ws, a1, a2, a3, a4⟩ := diskOK_start g h
+  obtain ⟨n', ws, a1, _, a2, a3, a4⟩ := diskOK_boot_empty g h
   exact ⟨n', ws, a1, h, a2, a3, a4⟩
 
-theorem reach_safe (g : GoodChain c ch top) {n : FNode} (r : Reach c ch n) : ∃ evs, Safe c ch n.store.height evs n := by
+theorem reach_safe (g : GoodChain c ch top) {n : FNode} (r : Reach c ch n) :
+    ∃ evs, Safe c ch n.store.height evs n ∧ Quiet n := by
   induction r with
-  | fresh => exact ⟨[], (fresh_safe g).rebase⟩
-  | ev e _ ih => obtain ⟨evs, hs⟩ := ih; exact ⟨_, (deliver_safe g hs e).1.rebase⟩
-  | restart _ ih => obtain ⟨evs, hs⟩ := ih; exact ⟨evs, (restart_spec g hs).2.2.2.2.2.2.2.2.2.rebase⟩
+  | fresh => exact ⟨[], (fresh_safe g).rebase, fresh_quiet g⟩
+  | ev e _ ih => obtain ⟨evs, hs, hq⟩ := ih; exact ⟨_, (deliver_safe g hs e).1.rebase, deliver_quiet g hs hq e⟩
+  | restart _ ih =>
+    obtain ⟨evs, hs, hq⟩ := ih
+    obtain ⟨a1, a2, _⟩ := stepOp_safe g hs hq .restart
+    exact ⟨_, a1.rebase, a2⟩
   | crash e k _ hst ih =>
-    obtain ⟨evs, hs⟩ := ih
+    obtain ⟨evs, hs, _⟩ := ih
     obtain ⟨n', ws, a1, _, _, _, a4⟩ := crash_restarts g hs e k
     rw [a1] at hst; cases hst
-    exact ⟨[], a4.safe⟩
-  | image hd hst =>
-    obtain ⟨n', ws', a1, _, _, a4⟩ := diskOK_start g hd
+    exact ⟨[], a4.safe, a4.quiet⟩
+  | crashStale e k _ _ _ hst ih ih₀ =>
+    obtain ⟨evs, hs, _⟩ := ih
+    obtain ⟨evs₀, hs₀, _⟩ := ih₀
+    obtain ⟨n', ws, a1, _, _, a4, a5, _⟩ := diskOK_boot g (crash_image_ok g hs e k).1 hs₀.caches
     rw [a1] at hst; cases hst
-    exact ⟨[], a4.safe⟩
+    exact ⟨evs₀, a4.rebase, a5⟩
+  | image hd hst =>
+    obtain ⟨n', ws', a1, _, _, _, a4⟩ := diskOK_boot_empty g hd
+    rw [a1] at hst; cases hst
+    exact ⟨[], a4.safe, a4.quiet⟩
 
 theorem reach_inv (g : GoodChain c ch top) (dc : DistinctCommitments ch) {n : FNode} (r : Reach c ch n) :
     ∃ evs, Inv c ch n.store.height evs n := by
   induction r with
   | fresh => exact ⟨[], (fresh_inv g).rebase⟩
   | ev e _ ih => obtain ⟨evs, hi⟩ := ih; exact ⟨_, (deliver_inv g dc hi e).rebase⟩
-  | restart _ ih => obtain ⟨evs, hi⟩ := ih; exact ⟨evs, (restart_inv g hi).rebase⟩
+  | restart _ ih => obtain ⟨evs, hi⟩ := ih; exact ⟨_, (stepOp_inv g dc hi .restart).rebase⟩
   | crash e k _ hst ih =>
     obtain ⟨evs, hi⟩ := ih
     obtain ⟨n', ws, a1, _, _, _, a4⟩ := crash_restarts g hi.safe e k
     rw [a1] at hst; cases hst
     exact ⟨[], a4⟩
+  | crashStale e k _ _ hle hst ih ih₀ =>
+    obtain ⟨evs, hi⟩ := ih
+    obtain ⟨evs₀, hi₀⟩ := ih₀
+    obtain ⟨n', ws, a1, _, _, a4, _⟩ := diskOK_boot_inv g (crash_image_ok g hi.safe e k).1 hi₀ hle
+    rw [a1] at hst; cases hst
+    exact ⟨evs₀, a4.rebase⟩
   | image hd hst =>
-    obtain ⟨n', ws', a1, _, _, a4⟩ := diskOK_start g hd
+    obtain ⟨n', ws', a1, _, _, _, a4⟩ := diskOK_boot_empty g hd
     rw [a1] at hst; cases hst
     exact ⟨[], a4⟩
 
